@@ -3,9 +3,8 @@
 namespace Generated.VPValueReaders
 
 def readers : List (String × String × String) :=
-  [("_adapt.py", "adapt_node", "from_array(var._value.value, name)"),
-   ("_adapt.py", "adapt_node", "isinstance(var._value.value, np.ndarray)"),
-   ("_adapt.py", "adapt_node", "var._value is not None"),
+  [("_adapt.py", "adapt_node", "from_array(var._value, name)"),
+   ("_adapt.py", "adapt_node", "isinstance(var._value, np.ndarray)"),
    ("_attributes.py", "_deref", ""),
    ("_graph.py", "Graph._get_build_result", "self._build_result._value is None"),
    ("_inline.py", "_Inline.propagate_values", ""),
